@@ -349,16 +349,50 @@ pub fn property() -> Property {
         },
     )
     .shrink_iters(100);
+    // L2: documents well beyond one pipe / read buffer, with multi-byte characters at every offset
+    let big = RandomSub::<(u32, u8, u32, u8)>::new(
+        "big-documents",
+        (256, 4_000),
+        |_| (0u32..9000, 0u8..3, 1500u32..6000, 0u8..3).boxed(),
+        |(filler, ch, run, place), cx| {
+            let c = ["é", "中", "😀"][*ch as usize % 3];
+            let text = format!("{}{}", "x".repeat(*filler as usize), c.repeat(*run as usize));
+            let mut args = cli::sv(&["version", "--source", "none", "--tag-version", "1.2.3", "--output-format", "zerv"]);
+            match place % 3 {
+                0 => args.push(format!("--custom={}", serde_json::json!({"note": text, "n": {"m": [1, 2]}}))),
+                1 => args.push(format!("--bumped-branch={text}")),
+                _ => args.push(format!("--schema-ron=(core:[var(Major),var(Minor),var(Patch)],extra_core:[],build:[str({})])", serde_json::Value::String(text.clone()))),
+            }
+            let o1 = proc::run(&proc::Spec { args: args.clone(), cwd: Some("/".into()), ..Default::default() });
+            ensure!(o1.code == Some(0), "emitting a large object failed (exit {:?}): {}", o1.code, o1.err_str().chars().take(300).collect::<String>());
+            let o2 = proc::run(&proc::Spec { args: cli::sv(&["version", "--source", "stdin", "--output-format", "zerv"]), stdin: Some(o1.stdout.clone()), cwd: Some("/".into()), ..Default::default() });
+            cx.nt_if(o1.stdout.len() > 8192);
+            cx.note(|| format!("document of {} bytes ({} x {c:?} after {} ASCII bytes, place {}) -> exit {:?}", o1.stdout.len(), run, filler, place % 3, o2.code));
+            ensure!(o2.code == Some(0), "an emitted object of {} bytes is refused on stdin (exit {:?}): {}", o1.stdout.len(), o2.code, o2.err_str().chars().take(300).collect::<String>());
+            ensure!(o2.stdout == o1.stdout, "an emitted object of {} bytes changes when piped through `version --source stdin --output-format zerv`", o1.stdout.len());
+            for f in ["semver", "pep440"] {
+                let mut d = args.clone();
+                d.retain(|x| x != "zerv" && x != "--output-format");
+                d.push(format!("--output-format={f}"));
+                let direct = proc::run(&proc::Spec { args: d, cwd: Some("/".into()), ..Default::default() });
+                let piped = proc::run(&proc::Spec { args: cli::sv(&["version", "--source", "stdin", "--output-format", f]), stdin: Some(o1.stdout.clone()), cwd: Some("/".into()), ..Default::default() });
+                ensure!(direct.code == piped.code && direct.stdout == piped.stdout, "{f}: direct rendering (exit {:?}) {:?} differs from the piped one (exit {:?}) {:?}", direct.code, direct.out_str().chars().take(80).collect::<String>(), piped.code, piped.out_str().chars().take(80).collect::<String>());
+            }
+            Ok(())
+        },
+    )
+    .shrink_iters(30)
+    .floor(0.5);
     let _ = flags::to_argv;
     Property {
         id: "C12",
-        rule: "cases = Zerv objects (a) built directly from generated schemas x vars (quotes, backslashes, newlines, Unicode, nested custom JSON with floats/nulls/arrays, u64 edges, presets and custom schemas), (b) emitted by `version` / `flow` runs with random flags; documents with exactly one schema placement rule broken (8 rules); truncated, mutated and garbage documents. Oracle: parse(print(z)) == z and re-emit byte-identical (round-trip); every emitted object passes the independent placement validator; rendering through `--source stdin` (in-process and through a real process pipe) equals direct rendering for semver, pep440 and templates; rule-breaking documents are rejected by version and flow in every output format; arbitrary documents give an error or a lossless object, never a panic. Non-trivial = object has a string needing escapes / non-ASCII / nested custom JSON, or is emitted by flow, or is a one-rule-broken document, or an accepted/parenthesised document; distinct = distinct cases.",
+        rule: "cases = Zerv objects (a) built directly from generated schemas x vars (quotes, backslashes, newlines, Unicode, nested custom JSON with floats/nulls/arrays, u64 edges, presets and custom schemas), (b) emitted by `version` / `flow` runs with random flags; documents with exactly one schema placement rule broken (8 rules); truncated, mutated and garbage documents. Oracle: parse(print(z)) == z and re-emit byte-identical (round-trip); every emitted object passes the independent placement validator; rendering through `--source stdin` (in-process and through a real process pipe) equals direct rendering for semver, pep440 and templates; rule-breaking documents are rejected by version and flow in every output format; arbitrary documents give an error or a lossless object, never a panic; big-documents: objects of 8-40 KiB carrying a long run of 2-, 3- or 4-byte characters at a random byte offset go through two real processes and a pipe unchanged. Non-trivial = object has a string needing escapes / non-ASCII / nested custom JSON, or is emitted by flow, or is a one-rule-broken document, or an accepted/parenthesised document; distinct = distinct cases.",
         assumptions: vec![
             "custom: Null (source none) and {} (stdin default) are both 'no custom variables'",
             "dirty objects are not compared through the pipe when they print a timestamp (the piped run takes the wall clock)",
             "epoch Some(0) is normalised away by the pipe",
         ],
-        subs: vec![emit.boxed(), broken.boxed(), garbage.boxed(), pipe.boxed()],
+        subs: vec![emit.boxed(), broken.boxed(), garbage.boxed(), pipe.boxed(), big.boxed()],
         known_repro: vec![],
     }
 }
